@@ -566,6 +566,21 @@ impl Translator {
         mono: &MonomorphEnv,
         st: &mut TranslatorState,
     ) {
+        // instructions a construct emits after its sub-expressions (the operator, the call) belong
+        // to the construct's own line, not to the line of the sub-expression translated last
+        let (file, lineno) = (st.curr_file, st.curr_lineno);
+        self.translate_expr_inner(expr, offset_table, mono, st);
+        st.curr_file = file;
+        st.curr_lineno = lineno;
+    }
+
+    fn translate_expr_inner(
+        &self,
+        expr: &Rc<Expr>,
+        offset_table: &OffsetTable,
+        mono: &MonomorphEnv,
+        st: &mut TranslatorState,
+    ) {
         self.update_current_file_and_lineno(st, expr.node());
 
         match &*expr.kind {
